@@ -267,9 +267,9 @@ Lemma class_eqb_eq a b : class_eqb a b = true -> a = b.
 Proof. destruct a, b; cbn; congruence. Qed.
 Lemma tl_eqb_eq a b : tl_eqb a b = true -> a = b.
 Proof.
-  destruct a as [s c y n i], b as [s' c' y' n' i']. unfold tl_eqb. cbn. intro Hb.
+  destruct a as [s c n i], b as [s' c' n' i']. unfold tl_eqb. cbn. intro Hb.
   repeat (apply andb_true_iff in Hb as [Hb ?]).
-  apply slot_eqb_eq in Hb. apply class_eqb_eq in H2. apply eqb_prop in H1.
+  apply slot_eqb_eq in Hb. apply class_eqb_eq in H1.
   apply (list_eqb_eq _ note_eqb_eq) in H0. apply (list_eqb_eq Z.eqb (fun x y => proj1 (Z.eqb_eq x y))) in H.
   congruence.
 Qed.
@@ -468,16 +468,16 @@ Qed.
 Definition upd (h o : list note) (l : tlist) : tlist :=
   match tl_slot l with SHits => set_rows l h | SHolds => set_rows l o | SOther => l end.
 
-Lemma rebuild_some y rows h : rebuild y rows = Some h -> h = rows.
-Proof. unfold rebuild. destruct rows; [|destruct y]; congruence. Qed.
+Lemma rebuild_some rows h : rebuild rows = Some h -> h = rows.
+Proof. unfold rebuild. destruct rows; congruence. Qed.
 
 Lemma full_ln_sorted_inv m s gap thr m' :
   full_ln_sorted m s gap thr = Some m' ->
   m' = map (upd (filter is_hit (ln_rows gap thr s)) (filter (fun n => negb (is_hit n)) (ln_rows gap thr s))) m.
 Proof.
   unfold full_ln_sorted. destruct (find_slot SHits m); try discriminate. destruct (find_slot SHolds m); try discriminate.
-  destruct (rebuild _ (filter is_hit _)) eqn:E1; try discriminate.
-  destruct (rebuild _ (filter (fun n => negb (is_hit n)) _)) eqn:E2; try discriminate.
+  destruct (rebuild (filter is_hit _)) eqn:E1; try discriminate.
+  destruct (rebuild (filter (fun n => negb (is_hit n)) _)) eqn:E2; try discriminate.
   apply rebuild_some in E1, E2. subst. intro H. inversion H. reflexivity.
 Qed.
 
@@ -599,17 +599,15 @@ Qed.
 Lemma find_filter {A} (f : A -> bool) l : find f l = match filter f l with [] => None | x :: _ => Some x end.
 Proof. induction l as [|x l IH]; cbn; auto. destruct (f x); auto. Qed.
 
-(* the operation is defined whenever the rebuilt classes have no list-valued default *)
+(* the operation is defined on every well-formed chart *)
 Theorem full_ln_sorted_defined m s gap thr :
-  wf_chart m = true -> no_listy m = true -> exists m', full_ln_sorted m s gap thr = Some m'.
+  wf_chart m = true -> exists m', full_ln_sorted m s gap thr = Some m'.
 Proof.
-  intros Hw Hy. destruct (wf_chart_inv m Hw) as (Hc1 & Hc2 & _).
-  unfold no_listy in Hy. rewrite forallb_app in Hy. apply andb_true_iff in Hy as [Y1 Y2].
+  intros Hw. destruct (wf_chart_inv m Hw) as (Hc1 & Hc2 & _).
   unfold full_ln_sorted, find_slot. rewrite !find_filter.
   unfold count_slot, slot_lists in *.
   destruct (filter (fun l => slot_eqb (tl_slot l) SHits) m) as [|lh [|? ?]]; try discriminate.
   destruct (filter (fun l => slot_eqb (tl_slot l) SHolds) m) as [|lo [|? ?]]; try discriminate.
-  cbn in Y1, Y2. rewrite andb_true_r in Y1, Y2. apply negb_true_iff in Y1, Y2. rewrite Y1, Y2.
   unfold rebuild. destruct (filter is_hit _); destruct (filter (fun n => negb (is_hit n)) _); eauto.
 Qed.
 
@@ -619,7 +617,7 @@ Theorem full_ln_spec m gap thr m' :
 Proof. intros Hw Hx. apply full_ln_sorted_spec; auto. apply isort_perm. apply isort_sorted. Qed.
 
 Theorem full_ln_defined m gap thr :
-  wf_chart m = true -> no_listy m = true -> exists m', full_ln m gap thr = Some m'.
+  wf_chart m = true -> exists m', full_ln m gap thr = Some m'.
 Proof. intros. apply full_ln_sorted_defined; assumption. Qed.
 
 (* consequences, for every sorted order *)
@@ -667,39 +665,309 @@ Proof.
   split. eapply count_of_spec; eauto. split. eapply no_overlap_of_spec; eauto. eapply last_kept_of_spec; eauto.
 Qed.
 
-(* ================================================================== the two defect classes of the pinned tree *)
+(* ================================================================== the defect class of the pinned tree *)
 (* StepMania: Map.stack((HitList, HoldList)) also collects mines/fakes/lifts/keysounds (HitList subclasses) and rolls
    (HoldList subclass); they come back inside hits/holds and stay in their own list: note count is not conserved. *)
 Definition sm_witness : chart :=
-  [ mkTL SOther CHit false [mkNote 1 500 None] [1];       (* mines: one mine at 500 in column 1 *)
-    mkTL SHits CHit false [mkNote 0 0 None] [];           (* hits: one hit at 0 in column 0 *)
-    mkTL SHolds CHold false [] [];
-    mkTL SOther CNone false [] [2] ].                     (* bpms *)
+  [ mkTL SOther CHit [mkNote 1 500 None] [1];       (* mines: one mine at 500 in column 1 *)
+    mkTL SHits CHit [mkNote 0 0 None] [];           (* hits: one hit at 0 in column 0 *)
+    mkTL SHolds CHold [] [];
+    mkTL SOther CNone [] [2] ].                     (* bpms *)
 
 Theorem full_ln_count_refuted :
-  exists m gap thr m', wf_chart m = true /\ no_listy m = true /\ 0 <= gap /\ 0 <= thr /\
+  exists m gap thr m', wf_chart m = true /\ 0 <= gap /\ 0 <= thr /\
     full_ln m gap thr = Some m' /\ ~ CountKept (chart_notes m) (chart_notes m').
 Proof.
   exists sm_witness, 150, 100.
-  eexists. split. reflexivity. split. reflexivity. split. lia. split. lia. split. vm_compute. reflexivity.
+  eexists. split. reflexivity. split. lia. split. lia. split. vm_compute. reflexivity.
   intro Hp. apply Permutation_length in Hp. vm_compute in Hp. discriminate.
 Qed.
 
 Theorem full_ln_spec_refuted :
-  exists m gap thr m', wf_chart m = true /\ no_listy m = true /\ 0 <= gap /\ 0 <= thr /\
+  exists m gap thr m', wf_chart m = true /\ 0 <= gap /\ 0 <= thr /\
     full_ln m gap thr = Some m' /\ ~ Spec m gap thr m'.
 Proof.
-  destruct full_ln_count_refuted as (m & gap & thr & m' & Hw & Hy & Hg & Ht & Hr & Hn).
+  destruct full_ln_count_refuted as (m & gap & thr & m' & Hw & Hg & Ht & Hr & Hn).
   exists m, gap, thr, m'. repeat split; auto. intro Hs. apply Hn. eapply count_of_spec. apply (sp_notes _ _ _ _ Hs).
 Qed.
 
-(* Quaver: QuaHit/QuaHold declare keysounds with default [] and TimedList.from_dict assigns that list to a
-   non-empty frame: ValueError for every chart with at least one note. *)
-Definition qua_witness : chart :=
-  [ mkTL SOther CNone false [] [1];
-    mkTL SHits CHit true [mkNote 0 0 None] [];
-    mkTL SHolds CHold true [] [] ].
+(* ================================================================== the correspondence relation transfers the theorem
+   (Corr/RunC17.v: [corr] accepts an implementation output that equals the model's output, as multisets of rows,
+   for some choice of which note among those sharing the greatest offset of a column is processed last).
+   Whatever [corr] accepts satisfies the specification: agreement under Corr carries the theorem over to that
+   implementation output. *)
+From RV Require Corr.RunC17.
 
-Theorem full_ln_defined_refuted :
-  exists m gap thr, wf_chart m = true /\ no_extra m = true /\ 0 <= gap /\ 0 <= thr /\ full_ln m gap thr = None.
-Proof. exists qua_witness, 150, 100. repeat split; try reflexivity; lia. Qed.
+Lemma sorted_snoc l r : SortedOff l -> Forall (fun x => n_off x <= n_off r) l -> SortedOff (l ++ [r]).
+Proof.
+  induction 1 as [|x l Hs IH Hf]; intros Hr; cbn. constructor; constructor.
+  inversion Hr; subst. constructor. apply IH; assumption.
+  apply Forall_app. split; auto.
+Qed.
+
+Lemma sorted_app_last l z : SortedOff (l ++ [z]) -> Forall (fun x => n_off x <= n_off z) (l ++ [z]).
+Proof.
+  induction l as [|x l IH]; cbn; intro Hs.
+  - constructor; [lia|constructor].
+  - apply StronglySorted_inv in Hs as [Hs Hf]. constructor; auto.
+    rewrite Forall_forall in Hf. apply Hf. apply in_or_app. right. left. reflexivity.
+Qed.
+
+Lemma remove1_sorted x l l' : SortedOff l -> remove1 x l = Some l' -> SortedOff l'.
+Proof.
+  intros Hs. revert l'. induction Hs as [|y l Hs IH Hf]; intros l' Hr; cbn in Hr; try discriminate.
+  destruct (note_eqb x y). inversion Hr; subst; assumption.
+  destruct (remove1 x l) as [r|] eqn:E; try discriminate. inversion Hr; subst.
+  constructor. apply IH. reflexivity.
+  apply remove1_perm in E. pose proof (Permutation_Forall E Hf) as Hf'. inversion Hf'; assumption.
+Qed.
+
+Lemma ColumnSpec_perm gap thr I I' O O' :
+  Permutation I I' -> Permutation O O' -> ColumnSpec gap thr I O -> ColumnSpec gap thr I' O'.
+Proof.
+  intros HI HO (s & o & H1 & H2 & H3). exists s, o.
+  split. eapply perm_trans; eauto. split. eapply perm_trans; eauto. exact H3.
+Qed.
+
+Lemma col_corr_sound gap thr G Oc :
+  SortedOff G -> RunC17.col_corr gap thr G Oc = true -> ColumnSpec gap thr G Oc.
+Proof.
+  intros Hs. unfold RunC17.col_corr. destruct G as [|g0 G0] eqn:EG.
+  - destruct Oc; try discriminate. intros _. apply ColumnSpec_nil.
+  - rewrite <- EG in *. clear EG g0 G0. intro Hb. apply existsb_exists in Hb as [r [Hr Hp]].
+    unfold last_candidates in Hr. destruct (rev G) as [|z rest] eqn:Erev. destruct Hr.
+    apply filter_In in Hr as [HrG Hoff]. apply Z.eqb_eq in Hoff.
+    assert (G = rev rest ++ [z]) as EG. { rewrite <- (rev_involutive G), Erev. reflexivity. }
+    assert (Forall (fun x => n_off x <= n_off r) G) as Hmax.
+    { rewrite Hoff. rewrite EG. apply sorted_app_last. rewrite <- EG. exact Hs. }
+    unfold reorder_last in Hp. destruct (remove1_in r G HrG) as [G' EG']. rewrite EG' in Hp.
+    pose proof (remove1_perm _ _ _ EG') as Hperm.
+    apply (expected_col_spec gap thr (G' ++ [r])).
+    + eapply perm_trans. apply Permutation_app_comm. symmetry. exact Hperm.
+    + apply sorted_chain. apply sorted_snoc. eapply remove1_sorted; eauto.
+      pose proof (Permutation_Forall Hperm Hmax) as Hf. inversion Hf; assumption.
+    + rewrite <- ln_column_expected. apply perm_b_sound. exact Hp.
+Qed.
+
+Lemma notes_corr_sound gap thr st O : RunC17.notes_corr gap thr st O = true -> NotesSpec gap thr st O.
+Proof.
+  unfold RunC17.notes_corr. intro Hb. apply andb_true_iff in Hb as [Hcols Hin].
+  rewrite forallb_forall in Hcols, Hin. intro c.
+  assert (Permutation (filter (in_col c) (isort st)) (filter (in_col c) st)) as Hp.
+  { apply perm_filter. apply isort_perm. }
+  destruct (in_dec Z.eq_dec c (columns (isort st))) as [Hi|Hn].
+  - eapply ColumnSpec_perm. exact Hp. reflexivity.
+    apply col_corr_sound. apply sorted_filter. apply isort_sorted. apply (Hcols c Hi).
+  - assert (filter (in_col c) (isort st) = []) as E1. { apply filter_col_nil. rewrite <- columns_in. exact Hn. }
+    rewrite E1 in Hp. apply Permutation_nil in Hp. rewrite Hp.
+    assert (filter (in_col c) O = []) as E2.
+    { apply filter_none. intros n Hn'. unfold in_col. apply Z.eqb_neq. intro Hc.
+      specialize (Hin n Hn'). apply existsb_exists in Hin as [d [Hd Hd']]. apply Z.eqb_eq in Hd'. subst. contradiction. }
+    rewrite E2. apply ColumnSpec_nil.
+Qed.
+
+Theorem corr_transfers m gap thr out :
+  wf_chart m = true -> no_extra m = true -> RunC17.corr m gap thr out = true -> SpecO m gap thr out.
+Proof.
+  intros Hw Hx. unfold RunC17.corr. destruct (full_ln m gap thr) as [mo|] eqn:Em.
+  2: { destruct (full_ln_defined m gap thr Hw) as [m' Hm]. congruence. }
+  destruct out as [io|]; try discriminate. intro Hb.
+  repeat (apply andb_true_iff in Hb as [Hb ?]).
+  rename H into Hmulti, H0 into Hnotes, H1 into Hholds, H2 into Hhits, H3 into Hoth.
+  apply (list_eqb_eq _ slot_eqb_eq) in Hb. apply (list_eqb_eq _ tl_eqb_eq) in Hoth.
+  apply full_ln_sorted_inv in Em.
+  exists io. split; [reflexivity|]. constructor.
+  - eapply NotesSpec_perm. apply stacked_perm; assumption. reflexivity. apply notes_corr_sound. exact Hnotes.
+  - intros n Hn. rewrite forallb_forall in Hhits. specialize (Hhits n Hn). unfold is_hit in Hhits. destruct (n_len n); congruence.
+  - intros n Hn. rewrite forallb_forall in Hholds. specialize (Hholds n Hn). unfold is_hit in Hholds. destruct (n_len n); cbn in Hholds; congruence.
+  - rewrite Hoth, Em. apply upd_others.
+  - rewrite Hb, Em. apply upd_layout.
+Qed.
+
+(* ================================================================== completeness of the boolean oracle:
+   specb decides the specification (a `false` on an implementation output is a genuine counter-example). *)
+Lemma Fill_filled gap thr a b x : Fill gap thr a b x -> x = filled gap thr a b.
+Proof.
+  destruct x as [c o l]. unfold Fill, filled. cbn. intros (Hc & Ho & Hk). subst.
+  destruct Hk as [[Hle Hl]|[Hlt Hl]]; subst.
+  - destruct (n_off b - n_off a - gap <? thr) eqn:E; auto. apply Z.ltb_lt in E. lia.
+  - destruct (n_off b - n_off a - gap <? thr) eqn:E; auto. apply Z.ltb_ge in E. lia.
+Qed.
+
+Lemma perm_b_complete a : forall b, Permutation a b -> perm_b a b = true.
+Proof.
+  induction a as [|x a IH]; intros b Hp.
+  - apply Permutation_nil in Hp. subst. reflexivity.
+  - cbn. assert (In x b) as Hi. { eapply Permutation_in. exact Hp. left. reflexivity. }
+    destruct (remove1_in x b Hi) as [b' Eb]. rewrite Eb. apply IH.
+    apply remove1_perm in Eb. eapply Permutation_cons_inv. eapply perm_trans. exact Hp. exact Eb.
+Qed.
+
+Lemma sorted_sortedb s : SortedOff s -> sortedb s = true.
+Proof.
+  induction 1 as [|x s Hs IH Hf]. reflexivity.
+  cbn. destruct s as [|y s]. reflexivity.
+  apply andb_true_iff. split; [|exact IH]. apply Z.leb_le. inversion Hf; assumption.
+Qed.
+
+Lemma sp_insert_sorted x l : SortedOff l -> SortedOff (sp_insert x l).
+Proof.
+  induction 1 as [|y l Hs IH Hf]; cbn.
+  - constructor; constructor.
+  - destruct (n_off y <? n_off x) eqn:E.
+    + apply Z.ltb_lt in E. constructor. exact IH.
+      eapply Permutation_Forall. symmetry. apply sp_insert_perm. constructor; auto. unfold le_off. lia.
+    + apply Z.ltb_ge in E. constructor. constructor; auto.
+      constructor. exact E. eapply Forall_impl; [|exact Hf]. unfold le_off. intros; lia.
+Qed.
+Lemma sp_sort_sorted l : SortedOff (sp_sort l).
+Proof. induction l as [|x l IH]; cbn. constructor. apply sp_insert_sorted. exact IH. Qed.
+
+Lemma sorted_offs s : SortedOff s -> StronglySorted Z.le (map n_off s).
+Proof.
+  induction 1 as [|x s Hs IH Hf]; cbn; constructor; auto.
+  apply Forall_map. exact Hf.
+Qed.
+
+Lemma sorted_perm_unique (l1 : list Z) : forall l2,
+  StronglySorted Z.le l1 -> StronglySorted Z.le l2 -> Permutation l1 l2 -> l1 = l2.
+Proof.
+  induction l1 as [|x l1 IH]; intros l2 H1 H2 Hp.
+  - apply Permutation_nil in Hp. auto.
+  - destruct l2 as [|y l2]. { apply Permutation_sym, Permutation_nil in Hp. discriminate. }
+    apply StronglySorted_inv in H1 as [H1 F1]. apply StronglySorted_inv in H2 as [H2 F2].
+    rewrite Forall_forall in F1, F2.
+    assert (x = y) as ->.
+    { assert (In y (x :: l1)) as Hy. { eapply Permutation_in. symmetry. exact Hp. left. reflexivity. }
+      assert (In x (y :: l2)) as Hx. { eapply Permutation_in. exact Hp. left. reflexivity. }
+      destruct Hy as [->|Hy]; auto. destruct Hx as [->|Hx]; auto.
+      specialize (F1 y Hy). specialize (F2 x Hx). lia. }
+    f_equal. apply IH; auto. eapply Permutation_cons_inv. exact Hp.
+Qed.
+
+(* the non-last outputs of a column depend on the processing order only through its offsets *)
+Section Fills.
+  Variables gap thr c : Z.
+  Fixpoint fills (ts : list Z) (tl : Z) : list note :=
+    match ts with
+    | [] => []
+    | t :: ts' =>
+        let nx := match ts' with [] => tl | t' :: _ => t' end in
+        mkNote c t (if nx - t - gap <? thr then None else Some (nx - t - gap)) :: fills ts' tl
+    end.
+
+  Lemma expected_fills s0 : forall cur r,
+    (forall n, In n (cur :: s0) -> n_col n = c) ->
+    expected gap thr cur (s0 ++ [r]) = fills (map n_off (cur :: s0)) (n_off r) ++ [r].
+  Proof.
+    induction s0 as [|b s0 IH]; intros cur r Hc.
+    - cbn. unfold filled. rewrite (Hc cur (or_introl eq_refl)). reflexivity.
+    - cbn [app expected]. rewrite IH by (intros n Hn; apply Hc; right; exact Hn).
+      cbn [map fills app]. unfold filled. rewrite (Hc cur (or_introl eq_refl)). reflexivity.
+  Qed.
+
+  Lemma expected_col_fills s0 r :
+    (forall n, In n s0 -> n_col n = c) ->
+    expected_col gap thr (s0 ++ [r]) = fills (map n_off s0) (n_off r) ++ [r].
+  Proof.
+    destruct s0 as [|cur s0]; intro Hc. reflexivity.
+    cbn [app expected_col]. apply expected_fills. exact Hc.
+  Qed.
+End Fills.
+
+Lemma chain_sorted s : ChainOff s -> SortedOff s.
+Proof.
+  induction s as [|x s IH]; intro Hc. constructor.
+  constructor. apply IH. eapply chain_tail. exact Hc.
+  apply Forall_forall. intros y Hy. apply In_nth_error in Hy as [j Hj].
+  apply (chain_mono (x :: s) Hc 0 (S j)); auto. lia.
+Qed.
+
+Lemma col_ok_complete gap thr c I O :
+  (forall n, In n I -> n_col n = c) -> ColumnSpec gap thr I O -> col_ok gap thr I O = true.
+Proof.
+  intros Hcol (s & o & Hps & Hpo & Hlen & Hfill & Hlast).
+  assert (ChainOff s) as Hch. { intros i a b Ha Hb. apply (Hfill i a b Ha Hb). }
+  assert (o = expected_col gap thr s) as Eo.
+  { apply nth_error_ext_eq. intro i. destruct (nth_error s i) as [a|] eqn:Ea.
+    - destruct s as [|cur rest]. destruct i; discriminate.
+      destruct (nth_error (cur :: rest) (S i)) as [b|] eqn:Eb.
+      + destruct (Hfill i a b Ea Eb) as [_ (x & Hx & HF)]. rewrite Hx. apply Fill_filled in HF. subst x.
+        symmetry. apply expected_nth_fill; assumption.
+      + rewrite (Hlast i a Ea Eb). symmetry. apply expected_nth_last; assumption.
+    - assert (length (expected_col gap thr s) = length s) as Hl2.
+      { destruct s; cbn. reflexivity. apply expected_length. }
+      apply nth_error_None in Ea. transitivity (@None note).
+      apply nth_error_None. lia. symmetry. apply nth_error_None. lia. }
+  unfold col_ok. destruct I as [|n0 I0] eqn:EI.
+  - apply Permutation_sym, Permutation_nil in Hps. subst s. cbn in Eo. subst o. apply Permutation_nil in Hpo. subst O. reflexivity.
+  - rewrite <- EI in *.
+    (* the last note of the processing order *)
+    destruct (rev s) as [|r rest] eqn:Er.
+    { assert (s = []) by (rewrite <- (rev_involutive s), Er; reflexivity). subst s.
+      apply Permutation_nil in Hps. rewrite Hps in EI. discriminate. }
+    assert (s = rev rest ++ [r]) as Es. { rewrite <- (rev_involutive s), Er. reflexivity. }
+    set (s0 := rev rest) in *.
+    assert (In r I) as HrI. { eapply Permutation_in. exact Hps. rewrite Es. apply in_or_app. right. left. reflexivity. }
+    destruct (remove1_in r I HrI) as [I' EI'].
+    assert (Permutation I' s0) as Hp0.
+    { apply remove1_perm in EI'. eapply Permutation_cons_inv. eapply perm_trans. symmetry. exact EI'.
+      eapply perm_trans. symmetry. exact Hps. rewrite Es. symmetry. apply Permutation_cons_append. }
+    apply existsb_exists. exists r. split; [exact HrI|]. rewrite EI'. cbn zeta.
+    assert (SortedOff s) as Hss by (apply chain_sorted; exact Hch).
+    assert (Forall (fun x => n_off x <= n_off r) s) as Hmax. { rewrite Es. apply sorted_app_last. rewrite <- Es. exact Hss. }
+    assert (SortedOff (sp_sort I' ++ [r])) as Hs'.
+    { apply sorted_snoc. apply sp_sort_sorted.
+      eapply Permutation_Forall. symmetry. eapply perm_trans. apply sp_sort_perm. exact Hp0.
+      rewrite Es in Hmax. apply Forall_app in Hmax. tauto. }
+    apply andb_true_iff. split. apply sorted_sortedb. exact Hs'.
+    apply perm_b_complete.
+    assert (forall n, In n s0 -> n_col n = c) as Hc0.
+    { intros n Hn. apply Hcol. eapply Permutation_in. exact Hps. rewrite Es. apply in_or_app. left. exact Hn. }
+    assert (forall n, In n (sp_sort I') -> n_col n = c) as Hc1.
+    { intros n Hn. apply Hc0. eapply Permutation_in. eapply perm_trans. apply sp_sort_perm. exact Hp0. exact Hn. }
+    rewrite (expected_col_fills gap thr c _ r Hc1).
+    assert (map n_off (sp_sort I') = map n_off s0) as Eoffs.
+    { apply sorted_perm_unique.
+      - apply sorted_offs. apply sp_sort_sorted.
+      - apply sorted_offs. rewrite Es in Hss. clear - Hss. induction s0; cbn in *. constructor.
+        apply StronglySorted_inv in Hss as [H1 H2]. constructor. apply IHs0; exact H1. apply Forall_app in H2. tauto.
+      - apply Permutation_map. eapply perm_trans. apply sp_sort_perm. exact Hp0. }
+    rewrite Eoffs, <- (expected_col_fills gap thr c _ r Hc0), <- Es, <- Eo. exact Hpo.
+Qed.
+
+Lemma dedup_incl x l : In x (dedup l) -> In x l.
+Proof.
+  induction l as [|y l IH]; cbn; intro Hi. destruct Hi.
+  destruct (existsb (Z.eqb y) l). right; auto. destruct Hi as [->|Hi]. left; reflexivity. right; auto.
+Qed.
+
+Lemma notes_ok_complete gap thr I O : NotesSpec gap thr I O -> notes_ok gap thr I O = true.
+Proof.
+  intro Hs. unfold notes_ok. apply forallb_forall. intros c _.
+  apply (col_ok_complete gap thr c). intros n Hn. apply filter_col_in in Hn. tauto. apply Hs.
+Qed.
+
+Lemma list_eqb_refl {A} (f : A -> A -> bool) : (forall x, f x x = true) -> forall l, list_eqb f l l = true.
+Proof. intros Hf. induction l; cbn; auto. rewrite Hf. exact IHl. Qed.
+Lemma slot_eqb_refl s : slot_eqb s s = true. Proof. destruct s; reflexivity. Qed.
+Lemma tl_eqb_refl l : tl_eqb l l = true.
+Proof.
+  unfold tl_eqb. rewrite slot_eqb_refl. destruct (tl_class l); cbn;
+  rewrite (list_eqb_refl _ note_eqb_refl), (list_eqb_refl _ Z.eqb_refl); reflexivity.
+Qed.
+
+Theorem specb_complete m gap thr o : SpecO m gap thr o -> specb m gap thr o = true.
+Proof.
+  intros (m' & -> & [Hn Hh Ho Hoth Hlay]). unfold specb.
+  rewrite (notes_ok_complete _ _ _ _ Hn), Hoth, Hlay.
+  rewrite (list_eqb_refl _ tl_eqb_refl), (list_eqb_refl _ slot_eqb_refl).
+  assert (forallb is_hit (slot_notes SHits m') = true) as ->.
+  { apply forallb_forall. intros n Hi. unfold is_hit. rewrite (Hh n Hi). reflexivity. }
+  assert (forallb (fun n => negb (is_hit n)) (slot_notes SHolds m') = true) as ->.
+  { apply forallb_forall. intros n Hi. unfold is_hit. specialize (Ho n Hi). destruct (n_len n); cbn; congruence. }
+  reflexivity.
+Qed.
+
+Theorem specb_decides m gap thr o : specb m gap thr o = true <-> SpecO m gap thr o.
+Proof. split. apply specb_sound. apply specb_complete. Qed.
